@@ -69,6 +69,18 @@ IT = ["addi", "slti", "sltiu", "xori", "ori", "andi"]
 BR = ["beq", "bne", "blt", "bge", "bltu", "bgeu"]
 
 
+def full_memory_text(r):
+    """The instruction memory exactly full, one short of full, or one too many (16 KiB = 4096 instructions); only a
+    handful of instructions execute: the run jumps over the padding.  Parsing such a text takes seconds, so only the
+    text-pair batches use it (two loads per run), rarely."""
+    n = r.choice([4096, 4096, 4095, 4097])
+    tail = r.choice([["addi a7, zero, 10", "ecall"], ["addi a7, zero, 93", "addi a0, zero, 3", "ecall"], ["addi x6, x6, 1"],
+                     ["beq zero, zero, end"], ["jal x0, end"], ["addi a7, zero, 1", "addi a0, zero, 42", "ecall"]])
+    head = ["addi x5, zero, 7", "jal x0, skip"]
+    pad = n - len(head) - len(tail)
+    return "\n".join(head + ["nop"] * pad + ["skip:"] + tail + ["end:"]) + "\n"
+
+
 def gen_riscv(r):
     """A random, usually terminating RISC-V text."""
     k = r.random()
@@ -177,9 +189,13 @@ def gen_riscv(r):
             body.append(f"{r.choice(['sw', 'sh', 'sb', 'lw', 'lh', 'lbu'])} {wreg()}, {4 * r.randint(0, 8)}(s0)")
         elif c < 0.88:
             tgt = f"f{i}"
-            body.append(f"{r.choice(BR)} {reg()}, {reg()}, {tgt}")
+            # label+0x<offset> (also odd and beyond the last instruction: the branch leaves the program)
+            ref = tgt + (r.choice(["+0x0", "+0x4", "+0x4", "+0x8", "+0x2", "+0x3", "+0x1", "+0x7fe"]) if r.random() < 0.2 else "")
+            body.append(f"{r.choice(BR)} {reg()}, {reg()}, {ref}")
             body.append(f"{r.choice(IT)} {wreg()}, {reg()}, 1")
             body.append(f"{tgt}:")
+            if ref != tgt:
+                body.append(f"{r.choice(IT)} {wreg()}, {reg()}, 2")
         elif c < 0.91:
             body.append(f"jal {r.choice(['x0', 'x1', 'ra'])}, j{i}")
             body.append("addi x6, x6, 1")
@@ -194,8 +210,16 @@ def gen_riscv(r):
             # instructions the front end cannot visualise (CSR) or does not implement (fence, ebreak: they fault)
             body.append(r.choice(["csrrw x2, 0x001, x1", "csrrs x5, 0x003, x0", "csrrwi x6, 0x002, 5", "csrrci x7, 0x001, 3",
                                   "csrrw x2, 0x300, x1", "fence x0, x0", "ebreak"]))
-        else:
+        elif c < 0.99:
             body.append(r.choice(["lw x1, 0(x0)", "addi a7, zero, 5\necall", "sw x1, 1(x0)"]))  # run-time fault
+        elif c < 0.995:
+            # the last words of the address space through a negative sum (legal), zero stored over data
+            body += r.choice([["sw t0, -4(zero)", "lw t1, -4(x0)"], ["sb t0, -1(zero)", "lbu t1, -1(zero)", "lw a1, -4(zero)"],
+                              ["addi t1, zero, 4", "sh t0, -8(t1)", "lhu a0, -4(zero)"], ["sw t0, -8(x0)", "sw zero, -8(x0)", "lw t1, -8(x0)"]])
+        else:
+            # the program ends by leaving the instruction memory's address range altogether
+            body += r.choice([["lui t0, 4", "jalr x0, t0, 0"], ["li t0, -8", "jalr x1, t0, 0"], ["jalr x0, zero, -4"],
+                              ["lui t0, 0x80000", "jalr x0, t0, 4"], ["lui t0, 4", "jalr x1, t0, -4", "addi x6, x6, 1"]])
     if loop:
         body.append("addi t2, t2, -1")
         body.append("bne t2, zero, again")
